@@ -10,6 +10,11 @@ CHECKS = {
    text="spec/JsonTokenizerOps.tla holds the definition of Depth/Index/IsKey (grammar over tokens) next to the Tokenizer's stack machine (one action per Next); TLC proves they agree on every valid token document up to the bound, enumerates those documents for step-by-step replay on the real Tokenizer, and validates recorded traces of the real Tokenizer (arbitrary bytes, Reset/reuse histories) against TraceJsonTokenizer.tla.",
    note="Token classes are lifted to a fixed list of scalar variants; traces are recorded through the public fields of Tokenizer (no hook needed); encoding/json's token stream cross-checks the definition.",
    technique="TLA+ spec + TLC model checking, spec-to-code replay and code-to-spec trace validation"),
+ "C11": dict(
+   level="model_checking", ref="DESIGN.md section 5, C11",
+   text="spec/JsonDecoderStream.tla models Decoder.readValue (buffer window, compaction, growth, sticky error, InputOffset) with nondeterministic buffering policy; TLC proves no byte is lost or duplicated, the results are the ideal tokenisation, InputOffset/Buffered stay in range for every policy, and enumerates all abstract streams x terminal errors. Each is lifted to the real 4 KiB / 32 KiB thresholds under many reader schedules and replayed; the hooks in readValue give traces that TLC validates against spec/TraceJsonDecoder.tla.",
+   note="Abstract byte classes (w d o x c g) are lifted to spaces, digit runs and strings; array/object values are covered by C05 framing; encoding/json's Decoder cross-checks the ideal sequence.",
+   technique="TLA+ spec + TLC model checking (policy-free), spec-to-code replay at real thresholds, trace validation of hook events"),
 }
 NOT_APPLICABLE = []
-HOOK_COMMITS = []
+HOOK_COMMITS = ["0806904"]
